@@ -1386,6 +1386,76 @@ def check_simplex_hol(ctx, systems, label):
             report(ctx, "simplexhol:wrong-unsat", key, "SimplexHOLWrapper proves false from %s, which Z3 (LRA) finds satisfiable" % rows, rp)
 
 
+# ------------------------------------------------------------------ the HOL macros (simplex_macro, strict_simplex_macro, integer_simplex)
+def check_macros(ctx, systems, label):
+    """`SimplexMacro`, `StrictSimplexMacro`, `IntegerSimplexMacro`.get_proof_term on the constraints
+    written as HOL terms over variables x_0, x_1, ... (names that collide with the macros' internal
+    renaming on purpose).  A returned proof term must be accepted by theory.check_proof, conclude
+    false, have every hypothesis literally among the given terms, and the system must indeed be
+    unsatisfiable (Z3); a returned assignment must satisfy the constraints.  An exception is no
+    answer (counted)."""
+    from logic import context
+    from syntax.parser import parse_term
+    from kernel import theory, report as kreport
+    from kernel.proofterm import ProofTerm
+    from kernel.term import false
+    from prover import simplex, simplex_strict
+    rng = ctx.rng("macros-" + label)
+
+    def row_str(r, op):
+        ts = [("x_%d" % i if c == 1 else "%d * x_%d" % (c, i)) for i, c in enumerate(r[:-1]) if c != 0]
+        return " + ".join(ts) + " %s %d" % (op, -r[-1])
+    for kind in ("real", "strict", "int"):
+        context.set_context('real', vars={"x_%d" % i: ('int' if kind == "int" else 'real') for i in range(5)})
+        for rows, shape in systems:
+            rows = [r for r in rows if any(r[:-1])]
+            if not rows:
+                continue
+            nv = len(rows[0]) - 1
+            strict = [kind == "strict" and rng.random() < 0.5 for _ in rows]
+            strs = [row_str(r, ">" if st else ">=") for r, st in zip(rows, strict)]
+            key = kind + ":" + json.dumps(strs)
+            ctx.case(("macro", key), nontrivial=len(rows) >= 2)
+            rp = {"kind": "macro", "macro": kind, "rows": rows, "strict": strict, "terms": strs}
+            try:
+                with time_limit(120):
+                    tms = [parse_term(t) for t in strs]
+                    if kind == "real":
+                        res = simplex.SimplexMacro().get_proof_term(args=tms)
+                    elif kind == "strict":
+                        res = simplex_strict.StrictSimplexMacro().get_proof_term(args=tms)
+                    else:
+                        res = simplex.IntegerSimplexMacro().get_proof_term(args=tms)
+            except Timeout:
+                ctx.count("macro:%s:timeout" % kind)
+                continue
+            except Exception as e:  # noqa
+                ctx.count("macro:%s:raise:%s" % (kind, type(e).__name__))
+                continue
+            if isinstance(res, ProofTerm):
+                ctx.count("macro:%s:proof" % kind)
+                try:
+                    with time_limit(300):
+                        rpt = kreport.ProofReport()
+                        th = theory.check_proof(res.export(), rpt)
+                except Timeout:
+                    continue
+                except Exception as e:  # noqa
+                    report(ctx, "macro:proof-rejected", key, "%s macro on %s returns a proof term that check_proof rejects: %s %s" % (kind, strs, type(e).__name__, str(e)[:150]), rp)
+                    continue
+                if th.prop != false or len(rpt.gaps) > 0:
+                    report(ctx, "macro:not-false", key, "%s macro on %s concludes %s (gaps %d)" % (kind, strs, th.prop, len(rpt.gaps)), rp)
+                foreign = [str(h) for h in th.hyps if h not in tms]
+                if foreign:
+                    report(ctx, "macro:foreign-hypothesis", key, "%s macro on the given constraints %s returns a theorem with hypotheses that are not among them: %s" % (kind, strs, foreign), rp)
+                if z3_sat(rows, integer=(kind == "int"), strict=strict) is True:
+                    report(ctx, "macro:wrong-unsat", key, "%s macro proves false from %s, which Z3 finds satisfiable" % (kind, strs), rp)
+            elif isinstance(res, dict):
+                ctx.count("macro:%s:sat" % kind)
+            else:
+                ctx.count("macro:%s:other" % kind)
+
+
 # ------------------------------------------------------------------ main
 def run(ctx):
     ctx.coverage["rule"] = (
@@ -1478,6 +1548,10 @@ def run(ctx):
     sys6 = [gen_small(rng) for _ in range(ctx.scale(400, 3000))] + [gen_system(rng) for _ in range(ctx.scale(200, 1500))]
     check_simplex_hol(ctx, sys6, "random")
     ctx.log("SimplexHOLWrapper stream done (%d)" % len(sys6))
+    rng = ctx.rng("macros")
+    sys7 = [gen_small(rng) for _ in range(ctx.scale(80, 800))]
+    check_macros(ctx, sys7, "random")
+    ctx.log("HOL macro stream done (3 x %d)" % len(sys7))
 
 
 def load_simplex_corpus(ctx):
@@ -1516,6 +1590,9 @@ def replay(ctx, rp):
                 check_bb(ctx, simplex, [(rows, "replay")], "replay%d" % _)
             else:
                 check_strict(ctx, simplex_strict, [(rows, "replay")], "replay%d" % _)
+    elif r.get("kind") == "macro":
+        for _ in range(6):
+            check_macros(ctx, [(rows, "replay")], "replay%d" % _)
     elif r.get("kind") == "omegahol":
         for _ in range(8):               # the surface forms of the constraints are drawn again
             check_omega_hol(ctx, [(rows, "replay")], "replay%d" % _)
@@ -1580,6 +1657,10 @@ MANIFEST = {
     "design_ref": "DESIGN.md 4/C16",
 }
 FINDINGS = [
+    {"status": "fixed", "key": "macro:foreign-hypothesis", "commit": "fixes/C16-6.patch",
+     "what": "simplex_macro on [-1 * x_1 + -2 * x_2 >= -1, x_1 + 2 * x_2 >= 2] returned x_2 + 2 * x_2 >= 2, -1 * x_2 + -2 * x_2 >= -1 |- false: "
+             "term_to_ineq renames variables to x_0, x_1, ... and translates back one variable after the other, so given variables with such "
+             "names are conflated (hypotheses are not the given constraints, or the back translation fails)"},
     {"status": "fixed", "key": "simplex:nontermination:[[2,3,-2,0,0],[-1,-1,-1,-4,-1],[-4,-3,-1,4,2],[-3,2,-3,-2,1],[1,0,2,1,0],[1,-2,-1,2,2],[-3,1,0,1,0],[2,0,1,1,0]]/glllllgg",
      "commit": "a056458",
      "what": "Simplex.check() repaired the LAST violated basic variable with the FIRST suitable non-basic one and cycles: "
